@@ -3,6 +3,7 @@ package main
 import (
 	"fmt"
 	"go/ast"
+	"go/constant"
 	"go/token"
 	"go/types"
 	"sort"
@@ -130,6 +131,86 @@ func checkC18(w *World, r *Report) {
 		}
 		sort.Strings(uniq)
 		r.Check(strings.Join(uniq, ",") == "len<"+min.Name()+",len>"+max.Name() && unbounded, "R18.2", "cardinalityInRange", fd.Pos(), strings.Join(uniq, ", ")+"; max == ^uint(0) ⇒ unbounded", "the element-count comparisons are {"+strings.Join(uniq, ",")+"} (unbounded test present: "+fmt.Sprint(unbounded)+"): a bound is inclusive/exclusive in the wrong way")
+	})
+
+	r.Rule("R18.5", "cardinality decision table: for every (min, max, count) of a small grid — count 0 included — cardinalityInRange reports an error iff count < min, or max is bounded and count > max", 1)
+	r.guard("R18.5", func() {
+		fd, _ := w.FuncDecl(w.Func("schema", "cardinalityInRange"))
+		min, max, ln := paramObj(p, fd, 1), paramObj(p, fd, 2), paramObj(p, fd, 3)
+		unb := constant.MakeUint64(^uint64(0))
+		var bad []string
+		n := 0
+		for _, mn := range []int64{0, 1, 2, 3} {
+			for _, mx := range []int64{1, 2, 3, -1} {
+				if mx >= 0 && mx < mn {
+					continue
+				}
+				for c := int64(0); c <= 5; c++ {
+					env := &guardEnv{p: p, bind: map[types.Object]constant.Value{min: constant.MakeInt64(mn), ln: constant.MakeInt64(c)}}
+					if mx < 0 {
+						env.bind[max] = unb
+					} else {
+						env.bind[max] = constant.MakeInt64(mx)
+					}
+					out, ok := env.run(fd.Body.List)
+					if !ok {
+						panic(undecided{"cardinalityInRange falls off its end"})
+					}
+					want := c < mn || (mx >= 0 && c > mx)
+					n++
+					if want != !out.Nil {
+						mxs := fmt.Sprint(mx)
+						if mx < 0 {
+							mxs = "unbounded"
+						}
+						bad = append(bad, fmt.Sprintf("min=%d max=%s count=%d: error expected %v, reported %v", mn, mxs, c, want, !out.Nil))
+					}
+				}
+			}
+		}
+		r.Count("cardinality grid points", n)
+		r.Check(len(bad) == 0, "R18.5", "cardinalityInRange decision table", fd.Pos(), fmt.Sprintf("%d grid points agree", n), "the verdict differs from `count < min || (bounded && count > max)` at: "+strings.Join(firstN(bad, 4), "; "))
+	})
+
+	r.Rule("R18.6", "an inactive case imposes nothing: in caseHasMandatory every check that can report a missing node for a case (a call returning the error list) runs only on the branch where hasOneOf found a configured child of that case", 2)
+	r.guard("R18.6", func() {
+		f := w.SSAFunc(w.Func("schema", "caseHasMandatory"))
+		if f == nil {
+			panic(undecided{"schema.caseHasMandatory"})
+		}
+		hasOne := w.SSAFunc(w.Func("schema", "hasOneOf"))
+		var active []*ssa.BasicBlock
+		for _, b := range f.Blocks {
+			if iff, ok := b.Instrs[len(b.Instrs)-1].(*ssa.If); ok {
+				if c, ok := iff.Cond.(*ssa.Call); ok && c.Call.StaticCallee() == hasOne && len(b.Succs[0].Preds) == 1 {
+					active = append(active, b.Succs[0])
+				}
+			}
+		}
+		k := 0
+		for _, b := range f.Blocks {
+			for _, in := range b.Instrs {
+				c, ok := in.(*ssa.Call)
+				if !ok || c.Call.StaticCallee() == nil || c.Call.StaticCallee().Pkg != f.Pkg {
+					continue
+				}
+				res := c.Call.StaticCallee().Signature.Results()
+				if res.Len() != 1 || res.At(0).Type().String() != "[]error" {
+					continue
+				}
+				k++
+				dom := false
+				for _, a := range active {
+					if a.Dominates(b) {
+						dom = true
+					}
+				}
+				r.Check(dom, "R18.6", fmt.Sprintf("caseHasMandatory: %s", c.Call.StaticCallee().Name()), c.Pos(), "only for a case with a configured child", "the check also runs for cases that are not selected: a mandatory node or nested mandatory choice inside an inactive case is reported missing although the tree is valid")
+			}
+		}
+		if k == 0 {
+			panic(undecided{"caseHasMandatory performs no checks"})
+		}
 	})
 
 	r.Rule("R18.3", "explicit data wins and decoration is idempotent in what it adds: a default is created only for a child name not already present; a leaf's HasDefault agrees with its Default (which suppresses a type default on a mandatory leaf)", 2)
